@@ -1,12 +1,197 @@
 import Driver.Util
-/-! Driver section for C14 (stub until the model is online). -/
+import RxnModel.Model.Savepoint
+/-! Driver section for C14: trace validation of the savepoint store/artifact model (`Model/Savepoint.lean`).
+Lines arrive as `op ## impl-output` (FeedImpl): the storage dump, the document URIs returned by the operators'
+DKV checkpoints and the junk URIs are read from the implementation; everything else is computed. -/
 namespace Driver.C14
-open Rxn Driver
+open Rxn Rxn.Savepoint Driver
 
-def step (st : Unit) : List String → Unit × String
-  | _ => (st, "bad-op")
+structure St where
+  nOps : Nat := 1
+  store : Store := {}
+  acked : List String := []
+  srcAcked : Bool := false
+  parked : List Published := []
+  fs : FS := []
+  dumped : Bool := false
+  atDump : Option FS := none
+  frozen : Bool := false
+  wiped : Bool := false
+  created : List (Nat × FS) := []     -- successful savepoints: id ↦ storage right after the creation
+  loaded : Option JobSnap := none
+
+/-! rendering / parsing of the canonical storage text (mirrors `harness/cmd/corr/c14.go`) -/
+
+def rCk (c : CkDoc) : String :=
+  s!"{c.id}~{joinWith "," c.wals}~{joinWith "|" (c.levels.map (joinWith ","))}"
+
+def rContent : Content → String
+  | .doc cks => "d:" ++ joinWith ";" (cks.map rCk)
+  | .job s => s!"j:{s.id}~{s.src}~" ++ joinWith "," (s.ops.map fun o => s!"{o.op}@{o.ckptId}@{o.uri}")
+  | .blob t => "b:" ++ t
+  | .junk => "x"
+
+def splitNE (sep s : String) : List String := (s.splitOn sep).filter (· ≠ "")
+
+def pCk (s : String) : CkDoc :=
+  match s.splitOn "~" with
+  | [id, ws, ls] => ⟨natOr id, splitNE "," ws, (ls.splitOn "|").map (splitNE ",")⟩
+  | _ => ⟨0, [], []⟩
+
+def pContent (s : String) : Content :=
+  if s.startsWith "d:" then .doc ((splitNE ";" ((s.drop 2).toString)).map pCk)
+  else if s.startsWith "b:" then .blob ((s.drop 2).toString)
+  else .junk
+
+def pEntry (w : String) : Option (Path × Content) :=
+  match w.splitOn "=" with
+  | [u, c] => some (.work u, pContent c)
+  | _ => none
+
+def leS (a b : String) : Bool := a < b || a == b
+
+def dedupKeys : List Path → List Path → List Path
+  | [], acc => acc.reverse
+  | p :: r, acc => if acc.contains p then dedupKeys r acc else dedupKeys r (p :: acc)
+
+def keyStr : Path → String
+  | .work u => u
+  | .spFile id u => s!"sp:{id}:{u}"
+  | .spJob id => s!"spjob:{id}"
+
+/-- sorted `key=content` words of the files selected by `sel`; job snapshot files of the working storage are
+not listed (the store removes obsolete ones asynchronously) -/
+def listing (fs : FS) (sel : Path → Bool) : String :=
+  let keys := (dedupKeys (fs.map (·.1)) []).filter sel
+  let ws := keys.filterMap fun p => (read fs p).map fun c => keyStr p ++ "=" ++ rContent c
+  let ws := ws.mergeSort leS
+  if ws.isEmpty then "-" else joinWith " " ws
+
+def isWorkFile : Path → Bool
+  | .work u => !u.startsWith "job:"
+  | _ => false
+
+def lister : Lister := .byId
+
+def jobURI (id : Nat) : URI := s!"job:{id}"
+
+def splitFeed (ws : List String) : List String × List String :=
+  (ws.takeWhile (· ≠ "##"), (ws.dropWhile (· ≠ "##")).drop 1)
+
+def pubSuffix : Option Published → String
+  | some (s, _) => s!" publishing {s.id}"
+  | none => ""
+
+def afterAck (st : St) (r : Store × Option Published) : St :=
+  match r.2 with
+  | some pub => { st with store := r.1, parked := st.parked ++ [pub], acked := [], srcAcked := false }
+  | none => { st with store := r.1 }
+
+def step (st : St) (line : List String) : St × String :=
+  let (op, fed) := splitFeed line
+  let st' := { st with dumped := false }
+  let live := !st.wiped
+  match op with
+  | ["put", _, _, _] | ["del", _, _] | ["put", _, _] =>
+      if st.wiped then (st', "wiped") else if st.frozen then (st', "frozen") else (st', "ok")
+  | ["ckpt"] =>
+      if !live then (st', "wiped") else
+      match createCheckpoint st.store st.nOps with
+      | (s, .ckpt id) => ({ st' with store := s, acked := [], srcAcked := false }, s!"ckpt {id}")
+      | (_, _) => (st', "inprogress")
+  | ["sp"] =>
+      if !live then (st', "wiped") else
+      match createSavepoint st.store st.nOps with
+      | (s, .sp id true) => ({ st' with store := s, acked := [], srcAcked := false }, s!"sp {id} created")
+      | (s, .sp id false) => ({ st' with store := s }, s!"sp {id} folded")
+      | (_, _) => (st', "sp-already")
+  | ["opck", i] =>
+      if !live then (st', "wiped") else if st.frozen then (st', "frozen") else
+      match st.store.pending with
+      | none => (st', "nopending")
+      | some p =>
+        let name := "op" ++ i
+        if natOr i ≥ st.nOps then (st', "noop") else
+        if st.acked.contains name then (st', "dup") else
+        match fed with
+        | "ack" :: uri :: _ =>
+          let r := ackOp st.store ⟨name, p.id, uri⟩
+          (afterAck { st' with acked := name :: st.acked } r, s!"ack {uri}" ++ pubSuffix r.2)
+        | _ => (st', "ack ?")
+  | ["srcack"] =>
+      if !live then (st', "wiped") else
+      match st.store.pending with
+      | none => (st', "nopending")
+      | some p =>
+        if st.srcAcked then (st', "dup") else
+        let r := ackSrc st.store p.id s!"s{p.id}"
+        (afterAck { st' with srcAcked := true } r, "ok" ++ pubSuffix r.2)
+  | "retain" :: _ => if !live then (st', "wiped") else if st.frozen then (st', "frozen") else (st', "ok")
+  | ["lose", _, _] => if !live then (st', "wiped") else ({ st' with frozen := true }, "ok")
+  | ["dump"] =>
+      let entries := fed.filterMap pEntry
+      -- keep the savepoint directories of the model, adopt the working storage of the implementation
+      let fs := entries ++ st.fs.filter (fun e => !e.1.isWork)
+      ({ st' with fs := fs, dumped := true, atDump := some fs }, listing fs isWorkFile)
+  | ["intact"] =>
+      if !live then (st', "wiped") else
+      match st.atDump with
+      | none => (st', "nodump")
+      | some fs0 =>
+        -- C14.savepoint_nonintrusive: publication writes only the job snapshot file and the savepoint directory
+        if listing st.fs isWorkFile == listing fs0 isWorkFile then (st', "ok") else (st', "changed")
+  | ["release", k] =>
+      if !live then (st', "wiped") else
+      if !st.dumped then (st', "nodump") else
+      match st.parked[natOr k]? with
+      | none => (st', "nothing")
+      | some pub =>
+        let r := publish lister st.fs (jobURI pub.1.id) pub
+        let st2 := { st' with fs := r.1, parked := st.parked.eraseIdx (natOr k) }
+        if !r.2 then (st2, s!"savepoint-error {pub.1.id}")
+        else if pub.2 then ({ st2 with created := (pub.1.id, r.1) :: st.created }, s!"published {pub.1.id} savepoint")
+        else (st2, s!"published {pub.1.id}")
+  | ["art"] =>
+      -- only complete artifacts (those with a job.savepoint); leftovers of failed creations are not compared
+      let complete := fun (id : Nat) => (read st.fs (.spJob id)).isSome
+      (st', listing st.fs (fun p => match p with
+        | .work _ => false
+        | .spFile id _ => complete id
+        | .spJob _ => true))
+  | ["work"] =>
+      if live then (st', "notwiped") else if st.loaded.isNone then (st', "noload") else (st', listing st.fs isWorkFile)
+  | ["wipe"] => ({ st' with fs := wipe st.fs, wiped := true, parked := [] }, "ok")
+  | ["junk", _] =>
+      if live then (st', "notwiped") else
+      match fed with
+      | "junk" :: uri :: _ => ({ st' with fs := write (.work uri) .junk st.fs }, s!"junk {uri}")
+      | _ => (st', "none")
+  | ["load", id] =>
+      if live then (st', "notwiped") else
+      match loadFromSavepoint lister st.fs (natOr id) with
+      | (fs, some s) => ({ st' with fs := fs, loaded := some s }, s!"loaded {rContent (.job s)}")
+      | (fs, none) => ({ st' with fs := fs, loaded := none }, "load-error")
+  | ["open", i] =>
+      match st.loaded with
+      | none => (st', "noload")
+      | some s =>
+        match s.ops.find? (fun o => o.op == "op" ++ i) with
+        | none => (st', "noop")
+        | some o =>
+          match st.created.find? (fun e => e.1 == s.id) with
+          | none => (st', "unknown-savepoint")
+          | some (_, fs0) =>
+            -- C14.savepoint_roundtrip: same image as on the storage the savepoint was created from, and it exists
+            if openDB st.fs o == openDB fs0 o && (openDB fs0 o).isSome then (st', "ok") else (st', "incomplete")
+  | _ => (st', "bad-op")
+
+def parseHeader (h : String) : St :=
+  let kv := (words h).filterMap fun w => match w.splitOn "=" with
+    | [k, v] => some (k, v)
+    | _ => none
+  { nOps := ((kv.find? (·.1 == "ops")).map (natOr ·.2)).getD 1 }
 
 def handle (lines : Array String) (i : Nat) (out : Array String) : Nat × Array String :=
-  runLines step () lines i out
+  runLines step (parseHeader (lines.getD (i - 1) "")) lines i out
 
 end Driver.C14
